@@ -634,7 +634,8 @@ impl World {
             manual_tx_ts: false,
             timer_cover: TIMER_COVER_DEFAULT.with(|c| c.get()),
             max_freq_ppm: 400.0,
-            step_threshold_units: (MS) as i128,
+            // the configured threshold as the library holds it (Duration::from_seconds(1e-3) is 999999.93 ns, not 1 ms)
+            step_threshold_units: duration_to_units(KalmanConfiguration::default().step_threshold),
             last_call: None,
             current_call: "",
             clock_log_seen: Vec::new(),
